@@ -7,8 +7,6 @@ import (
 
 var verifKeywords = []string{"repositories", "docker", "registry", "v2", "blobs", "sha256", "tags", "current", "link", "data"}
 
-func verifThorough() bool { return verif.Bound("full_root_grammar", 0, 1) == 1 }
-
 // verifRoot: "/", or 1..maxComp components of [a-z0-9._-] bytes (the regexp
 // metacharacter '.' included) with or without a trailing slash.
 //
@@ -30,7 +28,7 @@ func verifRoot(maxComp int) string {
 func verifRepoComponent(maxLen int) string {
 	k := verif.Choice("repo_comp_kind", 1+maxLen)
 	if k == 0 {
-		return verifKeywords[verif.Choice("repo_keyword", verif.Bound("repo_keywords", 4, len(verifKeywords)))]
+		return verifKeywords[verif.Choice("repo_keyword", verif.Bound("repo_keywords", 4, 6))]
 	}
 	b := verif.Bytes("repo_comp", k)
 	for j := range b {
@@ -76,13 +74,11 @@ func verifTag(minLen, maxLen int) string {
 var verifConcreteRoots = []string{"/", "/r.", "/r./", "/ab", "/ab/", "/a-/b_", "/a.b/c/"}
 
 // verifNameRoot: the root for the harnesses whose weight is on the name
-// grammar. quick: one of a few concrete roots (the filesystem root, with and
-// without trailing slash, with the metacharacter '.'), so that the pattern
-// handed to regexp is concrete; thorough: the full symbolic root grammar.
+// grammar: one of a few concrete roots (the filesystem root, with and without
+// trailing slash, with the metacharacter '.'), so that the pattern handed to
+// regexp is concrete. The symbolic root grammar is covered by the …Roots
+// harnesses.
 func verifNameRoot() string {
-	if verifThorough() {
-		return verifRoot(2)
-	}
 	return verifConcreteRoots[verif.Choice("root", verif.Bound("concrete_roots", 5, len(verifConcreteRoots)))]
 }
 
